@@ -2,7 +2,8 @@
   Soundness of the certificate checker of Model/Bisim.lean (proved once, for every pattern,
   every specification automaton and every certificate).
 -/
-import Gozod.Model.Bisim
+import Gozod.Model.BisimR
+import Gozod.Proofs.C20Lang
 namespace Gozod.C20
 open Gozod Gozod.Re
 
@@ -164,5 +165,104 @@ theorem never_run (s : List Nat) : Spec.never.run s = false := by
 theorem bisim_sound_full {S : Spec} (r0 : Re) (c : Cert S Spec.never) (h : Cert.check r0 c = true) :
     ∀ s : List Nat, Re.accepts r0 s = S.run s :=
   fun s => bisim_sound r0 c h s (never_run s)
+
+/-! ## restricted alphabet (`Cert.checkR`) -/
+
+theorem elem_append_false {b : Nat} : ∀ {l1 l2 : List Nat}, l1.elem b = false → l2.elem b = false → (l1 ++ l2).elem b = false
+  | [], _, _, h2 => h2
+  | x :: xs, l2, h1, h2 => by
+    simp only [List.elem, List.cons_append] at h1 ⊢
+    cases hx : (b == x)
+    · rw [hx] at h1; exact elem_append_false h1 h2
+    · rw [hx] at h1; cases h1
+
+theorem not_mem_of_elem_false {b : Nat} : ∀ {l : List Nat}, l.elem b = false → ¬ b ∈ l
+  | [], _, hm => by cases hm
+  | x :: xs, h, hm => by
+    simp only [List.elem] at h
+    cases hx : (b == x)
+    · rw [hx] at h
+      rcases List.mem_cons.1 hm with rfl | hm
+      · simp at hx
+      · exact not_mem_of_elem_false h hm
+    · rw [hx] at h; cases h
+
+section
+variable {S E : Spec} (B L : List Nat) (r0 : Re) (c : Cert S E)
+
+theorem inv_step_R (h : Cert.checkR B L r0 c = true) (b : Nat) (hB : B.elem b = false)
+    {r : Re} {oq : Option S.State} {oe : Option E.State}
+    (hi : Inv c r oq oe) : Inv c (Re.deriv b r) (S.gstep oq b) (E.gstep oe b) := by
+  simp only [Cert.checkR, Bool.and_eq_true] at h
+  obtain ⟨⟨⟨⟨_, hL⟩, hdfa⟩, _⟩, hall⟩ := h
+  rcases hi with ⟨i, hD, hmem⟩ | ⟨rfl, rfl⟩
+  · obtain ⟨row, hrow, hr⟩ := zipAll_nth hdfa i r hD
+    simp only [Bool.and_eq_true] at hr
+    obtain ⟨⟨hcov, hderiv⟩, hdead⟩ := hr
+    have hnode := Tree.all_mem hall hmem
+    simp only [Cert.checkNodeR, hD, hrow, Bool.and_eq_true] at hnode
+    obtain ⟨_, hsucc⟩ := hnode
+    cases hb : S.support.elem b
+    · right
+      refine ⟨?_, gstep_outside hb oq⟩
+      cases hl : L.elem b
+      · exact Re.deriv_outside b r (Re.covered_outside (elem_append_false hb (elem_append_false hB hl)) r hcov)
+      · have := List.all_eq_true.1 hdead b (elem_mem hl)
+        exact Re.isNone_eq this
+    · left
+      have hA : b ∈ Cert.alphaR S B := List.mem_filter.2 ⟨elem_mem hb, by rw [hB]; rfl⟩
+      obtain ⟨j, hj⟩ := zipAll_left hderiv b hA
+      have h1 := zipAll_zip hderiv b j hj
+      have h2 := zipAll_zip hsucc b j hj
+      rw [stepO_eq hb] at h2
+      refine ⟨j, ?_, inTree_mem h2⟩
+      unfold Cert.derivAt at h1
+      split at h1
+      · next r' hr' => rw [hr', Re.beq_eq h1]
+      · cases h1
+  · right
+    exact ⟨Re.deriv_none b, rfl⟩
+
+theorem inv_run_R (h : Cert.checkR B L r0 c = true) : ∀ (s : List Nat), avoids B s = true →
+    ∀ (r : Re) (oq : Option S.State) (oe : Option E.State),
+    Inv c r oq oe → Inv c (Re.derivs r s) (s.foldl S.gstep oq) (s.foldl E.gstep oe)
+  | [], _, _, _, _, hi => hi
+  | b :: s, hs, r, oq, oe, hi => by
+    simp only [avoids, List.all_cons, Bool.and_eq_true, Bool.not_eq_true'] at hs
+    simp only [Re.derivs, List.foldl_cons]
+    exact inv_run_R h s (by simpa [avoids] using hs.2) _ _ _ (inv_step_R B L r0 c h b hs.1 hi)
+
+/-- **Certificate soundness over a restricted alphabet.**  The pattern and the specification accept the same
+    strings among those that contain no byte of `B` (and lie outside the excluded region `E`). -/
+theorem bisim_sound_R (h : Cert.checkR B L r0 c = true) :
+    ∀ s : List Nat, avoids B s = true → E.run s = false → Re.accepts r0 s = S.run s := by
+  intro s hs he
+  have h' := h
+  simp only [Cert.checkR, Bool.and_eq_true] at h'
+  obtain ⟨⟨⟨⟨h0, _⟩, _⟩, hinit⟩, hall⟩ := h'
+  have hi0 : Inv c r0 (some S.init) (some E.init) := by
+    left
+    refine ⟨0, ?_, inTree_mem hinit⟩
+    split at h0
+    · next r hr => rw [hr, Re.beq_eq h0]
+    · cases h0
+  have hi := inv_run_R B L r0 c h s hs _ _ _ hi0
+  -- the final state is good
+  show Re.nullable (Re.derivs r0 s) = S.accO (s.foldl S.gstep (some S.init))
+  have he' : E.accO (s.foldl E.gstep (some E.init)) = false := he
+  rcases hi with ⟨i, hD, hmem⟩ | ⟨hr, hq⟩
+  · have hnode := Tree.all_mem hall hmem
+    cases hrow : nth c.tbl i with
+    | none => simp [Cert.checkNodeR, hD, hrow] at hnode
+    | some row =>
+      simp only [Cert.checkNodeR, hD, hrow, Bool.and_eq_true, Bool.or_eq_true, he'] at hnode
+      simpa using hnode.1
+  · rw [hr, hq]; rfl
+
+end
+
+theorem bisim_sound_R_full {S : Spec} (B L : List Nat) (r0 : Re) (c : Cert S Spec.never) (h : Cert.checkR B L r0 c = true) :
+    ∀ s : List Nat, avoids B s = true → Re.accepts r0 s = S.run s :=
+  fun s hs => bisim_sound_R B L r0 c h s hs (never_run s)
 
 end Gozod.C20
